@@ -51,7 +51,8 @@ pub fn run_line(e: &mut Eng, dbfile: &PathBuf, line: &str) -> Option<eng::Out> {
 pub fn main(a: &Args) -> i32 {
     eng::install_panic_hook();
     let dir = PathBuf::from(a.str("dir", "/verif/work/probe"));
-    let dbfile = dir.join("db.axm");
+    let mut dbfile = dir.join("db.axm");
+    let mut crashes = 0;
     let mut e = Eng::new();
     e.timeout = std::time::Duration::from_secs(a.num("timeout", 20));
     let stdin = std::io::stdin();
@@ -68,6 +69,20 @@ pub fn main(a: &Args) -> i32 {
             for f in ["db.axm", "axmos.log"] { let _ = std::fs::copy(dir.join(f), copy_dir.join(f)); }
             let o = e2.open(&copy_db, eng::default_cfg());
             println!("crashcopy\n   => {}", o.json());
+            continue;
+        }
+        // `crashreopen`: the process "dies" - the files as they are on disk are copied, the copy is opened and becomes the database
+        if line.trim() == "crashreopen" {
+            crashes += 1;
+            let nd = dir.join(format!("crash-{crashes}"));
+            let _ = std::fs::remove_dir_all(&nd);
+            std::fs::create_dir_all(&nd).unwrap();
+            let _ = std::fs::copy(&dbfile, nd.join("db.axm"));
+            let _ = std::fs::copy(dbfile.parent().unwrap().join("axmos.log"), nd.join("axmos.log"));
+            let _ = e.close();
+            dbfile = nd.join("db.axm");
+            let o = e.open(&dbfile, eng::default_cfg());
+            println!("crashreopen\n   => {}", o.json());
             continue;
         }
         if let Some(rest) = line.trim().strip_prefix("@ ") {
